@@ -361,6 +361,114 @@ package risc
 //@   ensures result == (ins == Sb || ins == Sh || ins == Sw)
 //@   assigns nothing
 
+// ---------------------------------------------------------------- assembler front end (C11)
+// Strings are abstract values with a length, a byte-at and a substring
+// observer; the trusted contracts below state the only facts about the Go
+// standard library the proof needs (all are about lengths and index ranges).
+
+//@ func strings.Split
+//@   mode int
+//@   trusted
+//@   ensures len(result) >= 1 && fresh(result)
+//@   assigns nothing
+
+//@ func strings.TrimSpace
+//@   mode int
+//@   trusted
+//@   ensures len(result) <= len(s)
+//@   assigns nothing
+
+//@ func strings.Index
+//@   mode int
+//@   trusted
+//@   ensures -1 <= result && result < len(s) && (result >= 0 ==> result + len(substr) <= len(s))
+//@   assigns nothing
+
+//@ func strings.IndexRune
+//@   mode int
+//@   trusted
+//@   ensures -1 <= result && result < len(s)
+//@   ensures result >= 0 ==> int32(s[result]) == r
+//@   assigns nothing
+
+//@ func strings.ToLower
+//@   mode int
+//@   trusted
+//@   assigns nothing
+
+//@ func strconv.ParseInt
+//@   mode int
+//@   trusted
+//@   ensures err == nil && bitSize == 32 ==> -2147483648 <= i && i <= 2147483647
+//@   ensures err != nil ==> i == 0 || true
+//@   assigns nothing
+
+//@ abstract func validReg(s string) bool
+//@ abstract func regOf(s string) RegisterType
+
+//@ func validateArgs
+//@   mode int
+//@   ensures (result == nil) == (len(args) == expected)
+//@   assigns nothing
+
+// parseRegister: the 64 accepted spellings map to their ABI register,
+// everything else is an error.
+//@ func parseRegister
+//@   mode int
+//@   ensures s == "zero" || s == "$zero" ==> result1 == nil && result == Zero
+//@   ensures s == "ra" || s == "$ra" ==> result1 == nil && result == Ra
+//@   ensures s == "sp" || s == "$sp" ==> result1 == nil && result == Sp
+//@   ensures s == "gp" || s == "$gp" ==> result1 == nil && result == Gp
+//@   ensures s == "tp" || s == "$tp" ==> result1 == nil && result == Tp
+//@   ensures s == "t0" || s == "$t0" ==> result1 == nil && result == T0
+//@   ensures s == "t1" || s == "$t1" ==> result1 == nil && result == T1
+//@   ensures s == "t2" || s == "$t2" ==> result1 == nil && result == T2
+//@   ensures s == "s0" || s == "$s0" ==> result1 == nil && result == S0
+//@   ensures s == "s1" || s == "$s1" ==> result1 == nil && result == S1
+//@   ensures s == "a0" || s == "$a0" ==> result1 == nil && result == A0
+//@   ensures s == "a1" || s == "$a1" ==> result1 == nil && result == A1
+//@   ensures s == "a2" || s == "$a2" ==> result1 == nil && result == A2
+//@   ensures s == "a3" || s == "$a3" ==> result1 == nil && result == A3
+//@   ensures s == "a4" || s == "$a4" ==> result1 == nil && result == A4
+//@   ensures s == "a5" || s == "$a5" ==> result1 == nil && result == A5
+//@   ensures s == "a6" || s == "$a6" ==> result1 == nil && result == A6
+//@   ensures s == "a7" || s == "$a7" ==> result1 == nil && result == A7
+//@   ensures s == "s2" || s == "$s2" ==> result1 == nil && result == S2
+//@   ensures s == "s3" || s == "$s3" ==> result1 == nil && result == S3
+//@   ensures s == "s4" || s == "$s4" ==> result1 == nil && result == S4
+//@   ensures s == "s5" || s == "$s5" ==> result1 == nil && result == S5
+//@   ensures s == "s6" || s == "$s6" ==> result1 == nil && result == S6
+//@   ensures s == "s7" || s == "$s7" ==> result1 == nil && result == S7
+//@   ensures s == "s8" || s == "$s8" ==> result1 == nil && result == S8
+//@   ensures s == "s9" || s == "$s9" ==> result1 == nil && result == S9
+//@   ensures s == "s10" || s == "$s10" ==> result1 == nil && result == S10
+//@   ensures s == "s11" || s == "$s11" ==> result1 == nil && result == S11
+//@   ensures s == "t3" || s == "$t3" ==> result1 == nil && result == T3
+//@   ensures s == "t4" || s == "$t4" ==> result1 == nil && result == T4
+//@   ensures s == "t5" || s == "$t5" ==> result1 == nil && result == T5
+//@   ensures s == "t6" || s == "$t6" ==> result1 == nil && result == T6
+//@   ensures !(s == "zero" || s == "$zero" || s == "ra" || s == "$ra" || s == "sp" || s == "$sp" || s == "gp" || s == "$gp" || s == "tp" || s == "$tp" || s == "t0" || s == "$t0" || s == "t1" || s == "$t1" || s == "t2" || s == "$t2" || s == "s0" || s == "$s0" || s == "s1" || s == "$s1" || s == "a0" || s == "$a0" || s == "a1" || s == "$a1" || s == "a2" || s == "$a2" || s == "a3" || s == "$a3" || s == "a4" || s == "$a4" || s == "a5" || s == "$a5" || s == "a6" || s == "$a6" || s == "a7" || s == "$a7" || s == "s2" || s == "$s2" || s == "s3" || s == "$s3" || s == "s4" || s == "$s4" || s == "s5" || s == "$s5" || s == "s6" || s == "$s6" || s == "s7" || s == "$s7" || s == "s8" || s == "$s8" || s == "s9" || s == "$s9" || s == "s10" || s == "$s10" || s == "s11" || s == "$s11" || s == "t3" || s == "$t3" || s == "t4" || s == "$t4" || s == "t5" || s == "$t5" || s == "t6" || s == "$t6") ==> result1 != nil && result == 0
+//@   assigns nothing
+
+//@ func parseOffsetReg
+//@   mode int
+//@   ensures result2 != nil ==> result == 0 && result1 == 0
+//@   assigns nothing
+
+// Parse: total (no index/slice panic on any input); pc counts instructions
+// (pc == 4 * #instructions at every line); a label is stored with the pc of
+// the next instruction; on error the zero Application is returned.
+//@ func Parse
+//@   mode int
+//@   nooverflow pc
+//@   ensures result1 != nil ==> result.Instructions == nil && result.Labels == nil
+//@   ensures result1 == nil ==> result.Labels != nil && (forall name string :: name in result.Labels ==> 0 <= result.Labels[name] && result.Labels[name] <= 4 * len(result.Instructions) && result.Labels[name] % 4 == 0)
+//@   writes labels: v == pc
+//@   assigns nothing
+//@   loop 0: invariant pc == 4 * len(instructions) && labels != nil && fresh(labels) && (cap(instructions) == 0 || fresh(instructions))
+//@   loop 0: invariant forall name string :: name in labels ==> 0 <= labels[name] && labels[name] <= pc && labels[name] % 4 == 0
+
+
 // ---- generated by /verif/contracts/gen_risc.py from the RV32IM table ----
 
 //@ mode bv
